@@ -83,7 +83,7 @@ struct Ctx {
     // which the parent treats as "judged, restart after this case" instead of as an unexplained abort.
     char armed_buf[6000]; volatile int armed_len = 0;
     void arm_timeout(const std::string &clause, const std::vector<std::string> &cls_, const std::string &desc, int seconds) {
-        if (clause.empty()) { armed_len = -1; cnt["armed_without_verdict"]++; write_stat(false); alarm(seconds); return; }   // only cut the case short (the verdict belongs to C15)
+        if (clause.empty()) { armed_len = -1; cnt["armed_without_verdict"]++; write_stat(false); alarm(seconds); alarm_on = true; return; }   // only cut the case short (the verdict belongs to C15)
         std::string cl = "[";
         for (size_t i = 0; i < cls_.size(); i++) cl += (i ? ",\"" : "\"") + jesc(cls_[i]) + "\"";
         cl += "]";
@@ -91,9 +91,9 @@ struct Ctx {
                          jesc(phase_).c_str(), idx, jesc(clause).c_str(), cl.c_str(), jesc(desc.substr(0, 1500)).c_str(), seconds);
         write_stat(false);   // an armed exit must not lose the counters gathered since the last checkpoint
         fflush(out); armed_len = n < (int)sizeof armed_buf ? n : 0;
-        alarm(seconds);
+        alarm(seconds); alarm_on = true;
     }
-    void disarm() { armed_len = 0; alarm(case_limit_s); }
+    void disarm() { armed_len = 0; alarm(case_limit_s); alarm_on = true; }
     static void on_alarm(int) {
         if (g_ctx && g_ctx->prog) g_ctx->prog->flag = 1;
         if (g_ctx && g_ctx->armed_len > 0) { ssize_t w = write(fileno(g_ctx->out), g_ctx->armed_buf, g_ctx->armed_len); (void)w; _exit(98); }
@@ -151,8 +151,9 @@ struct Ctx {
         return stopped_;
     }
     // advance to the next case; true iff this process must execute it
+    bool alarm_on = false;
     bool next() {
-        alarm(0); armed_len = 0;
+        if (alarm_on) { alarm(0); alarm_on = false; } armed_len = 0;   // (no system call for the cases of other shards)
         if (stopped()) return false;
         idx++;
         bool mine;
@@ -165,10 +166,10 @@ struct Ctx {
             struct timeval tv; gettimeofday(&tv, nullptr); double now = tv.tv_sec + tv.tv_usec * 1e-6;
             if (now - last_ckpt > 0.1) { last_ckpt = now; write_stat(false); }
         }
-        alarm(case_limit_s);
+        alarm(case_limit_s); alarm_on = true;
         return true;
     }
-    void done_case() { armed_len = 0; alarm(0); }
+    void done_case() { armed_len = 0; if (alarm_on) { alarm(0); alarm_on = false; } }
 
     // when replaying a single case, say what it is before executing it (so that a hang or crash is still described)
     void announce(const std::string &desc) { if (only >= 0) { fprintf(out, "{\"t\":\"case\",\"case\":%ld,\"desc\":\"%s\"}\n", idx, jesc(desc).c_str()); fflush(out); } }
